@@ -115,6 +115,7 @@ JudgeDecapQ(e, rx, q, crc) ==
       \* probe packets also decide C16; for packets carrying extensions the delivery obligation is C13's
       PP(ps) == (IF probe THEN Append(ps, "C16") ELSE ps) \o (IF delim /\ Len(w.exts) > 0 THEN <<"C13">> ELSE <<>>)
                 \o (IF Has(e, "ilv") THEN <<"C07">> ELSE <<>>)      \* packets of an interleaving scenario
+                \o (IF Has(e, "utl") THEN <<"C20">> ELSE <<>>)      \* packets generated by the utils structs
       id    == w.fragId
       kind  == IF delim THEN w.kind ELSE "none"
       isStart == kind \in {"complete", "first"}
